@@ -1,0 +1,259 @@
+//go:build verif
+
+package geom
+
+// Contracts for the TWKB decoder (C08 totality, C07 header truth).
+
+//@ prop C08,C07
+
+//@ pred TwkbInv(p) = 0 <= p.pos && p.pos <= len(p.twkb) && 2 <= p.dimensions && p.dimensions <= 4 && p.ctype < 4 && Dim(p.ctype) == p.dimensions && (p.hasZ <==> HasZ(p.ctype)) && (p.hasM <==> HasM(p.ctype)) && (p.hasBBox ==> len(p.bbox) == 2 * p.dimensions)
+//@ pred TwkbHdrSameOld2(p) = same(p.twkb, old(p.twkb)) && p.dimensions == old(p.dimensions) && p.ctype == old(p.ctype) && p.hasZ == old(p.hasZ) && p.hasM == old(p.hasM) && p.hasIDs == old(p.hasIDs) && p.hasBBox == old(p.hasBBox) && p.isEmpty == old(p.isEmpty) && p.kind == old(p.kind) && same(p.bbox, old(p.bbox)) && p.pos >= old(p.pos)
+
+//@ pred VarintFrameOld(p) = same(p.twkb, old(p.twkb)) && p.kind == old(p.kind) && p.ctype == old(p.ctype) && p.dimensions == old(p.dimensions) && p.precXY == old(p.precXY) && p.hasZ == old(p.hasZ) && p.hasM == old(p.hasM) && p.precZ == old(p.precZ) && p.precM == old(p.precM) && same(p.scalings, old(p.scalings)) && p.hasBBox == old(p.hasBBox) && p.hasSize == old(p.hasSize) && p.hasIDs == old(p.hasIDs) && p.hasExt == old(p.hasExt) && p.isEmpty == old(p.isEmpty) && same(p.bbox, old(p.bbox)) && same(p.idList, old(p.idList)) && p.size == old(p.size) && same(p.refpoint, old(p.refpoint))
+
+//@ func (*twkbParser).parseUnsignedVarint
+//@   wraparith
+//@   requires 0 <= p.pos && p.pos <= len(p.twkb)
+//@   modifies p
+//@   ensures result1 == nil ==> p.pos > old(p.pos) && p.pos <= len(p.twkb)
+//@   ensures result1 != nil ==> p.pos == old(p.pos)
+//@   ensures onlychanged(p, pos)
+
+//@ func (*twkbParser).parseSignedVarint
+//@   wraparith
+//@   requires 0 <= p.pos && p.pos <= len(p.twkb)
+//@   modifies p
+//@   ensures result1 == nil ==> p.pos > old(p.pos) && p.pos <= len(p.twkb)
+//@   ensures result1 != nil ==> p.pos == old(p.pos)
+//@   ensures onlychanged(p, pos)
+
+//@ func (*twkbParser).parseSize
+//@   wraparith
+//@   requires 0 <= p.pos && p.pos <= len(p.twkb)
+//@   modifies p
+//@   ensures result == nil ==> 0 <= p.size && p.size <= len(p.twkb) && p.size >= p.pos
+//@   ensures p.pos >= old(p.pos) && p.pos <= len(p.twkb) && onlychanged(p, pos, size)
+
+//@ func (*twkbParser).parseIDList
+//@   wraparith
+//@   requires 0 <= p.pos && p.pos <= len(p.twkb)
+//@   modifies p
+//@   allocbound 48 * (len(p.twkb) - p.pos) + 64
+//@   ensures result == nil ==> len(p.idList) == numIDs
+//@   ensures p.pos >= old(p.pos) && p.pos <= len(p.twkb) && onlychanged(p, pos, idList)
+//@   loop 0 invariant 0 <= i && i <= numIDs && len(p.idList) == numIDs && old(p.pos) <= p.pos && p.pos <= len(p.twkb) && onlychanged(p, pos, idList) && fresh(p.idList) && p != nil
+
+//@ func (*twkbParser).parsePointArray
+//@   wraparith
+//@   split p.dimensions 2 3 4
+//@   requires TwkbInv(p)
+//@   modifies p
+//@   allocbound 48 * (len(p.twkb) - p.pos) + 64
+//@   ensures result1 == nil ==> len(result0) == numPoints * p.dimensions && numPoints >= 0 && fresh(result0)
+//@   ensures TwkbInv(p) && (onlychanged(p, pos, refpoint) && p.pos >= old(p.pos))
+//@   loop 0 invariant 0 <= i && i <= numPoints && c == i * p.dimensions && len(coords) == numPoints * p.dimensions && fresh(coords) && offset(coords) == 0 && TwkbInv(p) && (onlychanged(p, pos, refpoint) && p.pos >= old(p.pos)) && p != nil
+//@   loop 1 invariant 0 <= d && d <= p.dimensions && 0 <= i && i < numPoints && c == i * p.dimensions + d && len(coords) == numPoints * p.dimensions && fresh(coords) && offset(coords) == 0 && TwkbInv(p) && (onlychanged(p, pos, refpoint) && p.pos >= old(p.pos)) && p != nil
+
+//@ pred HdrFrame(p) = same(p.twkb, old(p.twkb)) && p.pos >= old(p.pos) && same(p.idList, old(p.idList)) && same(p.refpoint, old(p.refpoint))
+
+//@ func (*twkbParser).parseTypeAndPrecision
+//@   wraparith
+//@   requires 0 <= p.pos && p.pos <= len(p.twkb)
+//@   modifies p
+//@   ensures result == nil ==> p.pos == old(p.pos) + 1 && p.pos <= len(p.twkb) && 0 <= p.kind && p.kind <= 15 && -8 <= p.precXY && p.precXY <= 7
+//@   ensures result != nil ==> p.pos == old(p.pos)
+//@   ensures onlychanged(p, pos, kind, precXY, scalings)
+
+//@ func (*twkbParser).parseMetadataHeader
+//@   wraparith
+//@   requires 0 <= p.pos && p.pos <= len(p.twkb)
+//@   modifies p
+//@   ensures result == nil ==> p.pos == old(p.pos) + 1 && p.pos <= len(p.twkb)
+//@   ensures result == nil && (p.kind == 1 || p.kind == 2 || p.kind == 3) ==> !p.hasIDs
+//@   ensures p.pos <= len(p.twkb) && p.pos >= old(p.pos) && onlychanged(p, pos, hasBBox, hasSize, hasIDs, hasExt, isEmpty)
+//@   ensures result == nil ==> (p.hasBBox <==> old(p.twkb[p.pos]) % 2 == 1) && (p.hasSize <==> (old(p.twkb[p.pos]) / 2) % 2 == 1) && (p.hasIDs <==> (old(p.twkb[p.pos]) / 4) % 2 == 1) && (p.hasExt <==> (old(p.twkb[p.pos]) / 8) % 2 == 1) && (p.isEmpty <==> (old(p.twkb[p.pos]) / 16) % 2 == 1)
+
+//@ func (*twkbParser).parseExtendedPrecision
+//@   wraparith
+//@   requires 0 <= p.pos && p.pos <= len(p.twkb) && !p.hasZ && !p.hasM && p.dimensions == 2 && p.ctype == 0
+//@   modifies p
+//@   ensures result == nil ==> p.pos == old(p.pos) + 1
+//@   ensures p.pos <= len(p.twkb) && p.pos >= old(p.pos) && onlychanged(p, pos, ctype, dimensions, hasZ, hasM, precZ, precM, scalings)
+//@   ensures 2 <= p.dimensions && p.dimensions <= 4 && p.ctype < 4 && Dim(p.ctype) == p.dimensions && (p.hasZ <==> HasZ(p.ctype)) && (p.hasM <==> HasM(p.ctype))
+//@   ensures result == nil ==> (p.hasZ <==> old(p.twkb[p.pos]) % 2 == 1) && (p.hasM <==> (old(p.twkb[p.pos]) / 2) % 2 == 1)
+//@   ensures result == nil && p.hasZ ==> p.precZ == (old(p.twkb[p.pos]) / 4) % 8
+//@   ensures result == nil && p.hasM ==> p.precM == (old(p.twkb[p.pos]) / 32) % 8
+
+//@ func (*twkbParser).parseBBox
+//@   wraparith
+//@   requires 0 <= p.pos && p.pos <= len(p.twkb) && 2 <= p.dimensions && p.dimensions <= 4 && len(p.bbox) == 0 && cap(p.bbox) == 0
+//@   modifies p
+//@   ensures result == nil ==> len(p.bbox) == old(len(p.bbox)) + 2 * p.dimensions
+//@   ensures p.pos <= len(p.twkb) && p.pos >= old(p.pos) && onlychanged(p, pos, bbox)
+//@   loop 0 invariant 0 <= d && d <= p.dimensions && len(p.bbox) == 2 * d && fresh(p.bbox) && p.pos <= len(p.twkb) && p.pos >= old(p.pos) && onlychanged(p, pos, bbox) && p != nil
+
+//@ pred FreshParser(p) = p.pos == 0 && p.dimensions == 2 && p.ctype == 0 && !p.hasZ && !p.hasM && !p.hasBBox && len(p.bbox) == 0 && cap(p.bbox) == 0
+
+//@ func (*twkbParser).parseHeaders
+//@   wraparith
+//@   requires FreshParser(p)
+//@   modifies p
+//@   ensures TwkbInv(p) || result != nil
+//@   ensures result == nil ==> TwkbInv(p)
+//@   ensures 0 <= p.pos && p.pos <= len(p.twkb) && same(p.twkb, old(p.twkb))
+//@   ensures result == nil && (p.kind == 1 || p.kind == 2 || p.kind == 3) ==> !p.hasIDs
+//@   ensures result == nil && p.hasSize ==> 0 <= p.size && p.size <= len(p.twkb)
+
+// ---- geometry level: total for every input; allocation bounded by the input ----
+//@ pred Tk(p) = TwkbInv(p) && (onlychanged(p, pos, refpoint) && p.pos >= old(p.pos))
+
+//@ func (*twkbParser).parsePointCountAndArray
+//@   wraparith
+//@   requires TwkbInv(p)
+//@   modifies p
+//@   allocbound 48 * (len(p.twkb) - p.pos) + 64
+//@   ensures Tk(p)
+//@   ensures result2 == nil ==> result1 >= 0 && len(result0) == result1 * p.dimensions && fresh(result0)
+
+//@ func (*twkbParser).nextPoint
+//@   wraparith
+//@   requires TwkbInv(p)
+//@   modifies p
+//@   allocbound 48 * (len(p.twkb) - p.pos) + 64
+//@   ensures Tk(p)
+//@   ensures result1 == nil ==> result0.full && result0.coords.Type == p.ctype
+
+//@ func (*twkbParser).parsePoint
+//@   wraparith
+//@   requires TwkbInv(p)
+//@   modifies p
+//@   allocbound 48 * (len(p.twkb) - p.pos) + 64
+//@   ensures Tk(p)
+//@   ensures result1 == nil ==> result0.coords.Type == p.ctype && (result0.full <==> !p.isEmpty)
+
+//@ func (*twkbParser).nextLineString
+//@   wraparith
+//@   requires TwkbInv(p)
+//@   modifies p
+//@   allocbound 48 * (len(p.twkb) - p.pos) + 64
+//@   ensures Tk(p)
+//@   ensures result1 == nil ==> result0.seq.ctype == p.ctype
+
+//@ func (*twkbParser).parseLineString
+//@   wraparith
+//@   requires TwkbInv(p)
+//@   modifies p
+//@   allocbound 48 * (len(p.twkb) - p.pos) + 64
+//@   ensures Tk(p)
+//@   ensures result1 == nil ==> result0.seq.ctype == p.ctype
+
+//@ func (*twkbParser).nextPolygon
+//@   wraparith
+//@   requires TwkbInv(p)
+//@   modifies p
+//@   allocbound 48 * (len(p.twkb) - p.pos) + 64
+//@   ensures Tk(p)
+//@   loop 0 invariant 0 <= r && Tk(p) && p != nil && fresh(rings) && (forall k :: 0 <= k && k < len(rings) ==> LSInv(rings[k]))
+//@   loop 1 invariant 0 <= d && d <= p.dimensions && Tk(p) && p != nil && numPoints >= 2 && len(coords) == numPoints * p.dimensions && fresh(coords) && fresh(rings) && (forall k :: 0 <= k && k < len(rings) ==> LSInv(rings[k]))
+//@   loop 2 invariant 0 <= d && d <= p.dimensions && Tk(p) && p != nil && numPoints >= 2 && len(coords) == numPoints * p.dimensions + d && fresh(coords) && fresh(rings) && (forall k :: 0 <= k && k < len(rings) ==> LSInv(rings[k]))
+
+//@ func (*twkbParser).parsePolygon
+//@   wraparith
+//@   requires TwkbInv(p)
+//@   modifies p
+//@   allocbound 48 * (len(p.twkb) - p.pos) + 64
+//@   ensures Tk(p)
+
+//@ func (*twkbParser).nextMultiPoint
+//@   wraparith
+//@   requires TwkbInv(p)
+//@   modifies p
+//@   allocbound 48 * (len(p.twkb) - p.pos) + 64
+//@   ensures TwkbInv(p) && onlychanged(p, pos, refpoint, idList) && p.pos >= old(p.pos)
+//@   loop 0 invariant 0 <= i && TwkbInv(p) && onlychanged(p, pos, refpoint, idList) && p.pos >= old(p.pos) && p != nil && fresh(pts) && (forall k :: 0 <= k && k < len(pts) ==> PtInv(pts[k]))
+
+//@ func (*twkbParser).parseMultiPoint
+//@   wraparith
+//@   requires TwkbInv(p)
+//@   modifies p
+//@   allocbound 48 * (len(p.twkb) - p.pos) + 64
+//@   ensures TwkbInv(p) && onlychanged(p, pos, refpoint, idList) && p.pos >= old(p.pos)
+
+//@ func (*twkbParser).nextMultiLineString
+//@   wraparith
+//@   requires TwkbInv(p)
+//@   modifies p
+//@   allocbound 48 * (len(p.twkb) - p.pos) + 64
+//@   ensures TwkbInv(p) && onlychanged(p, pos, refpoint, idList) && p.pos >= old(p.pos)
+//@   loop 0 invariant 0 <= i && TwkbInv(p) && onlychanged(p, pos, refpoint, idList) && p.pos >= old(p.pos) && p != nil && fresh(lines) && (forall k :: 0 <= k && k < len(lines) ==> LSInv(lines[k]))
+
+//@ func (*twkbParser).parseMultiLineString
+//@   wraparith
+//@   requires TwkbInv(p)
+//@   modifies p
+//@   allocbound 48 * (len(p.twkb) - p.pos) + 64
+//@   ensures TwkbInv(p) && onlychanged(p, pos, refpoint, idList) && p.pos >= old(p.pos)
+
+//@ func (*twkbParser).nextMultiPolygon
+//@   wraparith
+//@   requires TwkbInv(p)
+//@   modifies p
+//@   allocbound 48 * (len(p.twkb) - p.pos) + 64
+//@   ensures TwkbInv(p) && onlychanged(p, pos, refpoint, idList) && p.pos >= old(p.pos)
+//@   loop 0 invariant 0 <= i && TwkbInv(p) && onlychanged(p, pos, refpoint, idList) && p.pos >= old(p.pos) && p != nil && fresh(polys) && (forall k :: 0 <= k && k < len(polys) ==> PolyInv(polys[k]))
+
+//@ func (*twkbParser).parseMultiPolygon
+//@   wraparith
+//@   requires TwkbInv(p)
+//@   modifies p
+//@   allocbound 48 * (len(p.twkb) - p.pos) + 64
+//@   ensures TwkbInv(p) && onlychanged(p, pos, refpoint, idList) && p.pos >= old(p.pos)
+
+//@ func (*twkbParser).nextGeometryCollection
+//@   wraparith
+//@   requires TwkbInv(p)
+//@   modifies p
+//@   allocbound 48 * (len(p.twkb) - p.pos) + 64
+//@   ensures same(p.twkb, old(p.twkb)) && p.pos >= old(p.pos) && p.pos <= len(p.twkb)
+//@   loop 0 invariant 0 <= i && 0 <= p.pos && p.pos <= len(p.twkb) && same(p.twkb, old(p.twkb)) && p.pos >= old(p.pos) && p != nil && fresh(geoms)
+//@   loop 0 assume forall k :: 0 <= k && k < len(geoms) ==> GShape(geoms[k]) && GInv(geoms[k]) && CTypeOf(geoms[k]) < 4   // A-frame-rp
+
+//@ func (*twkbParser).parseGeometryCollection
+//@   wraparith
+//@   requires TwkbInv(p)
+//@   modifies p
+//@   allocbound 48 * (len(p.twkb) - p.pos) + 64
+//@   ensures same(p.twkb, old(p.twkb)) && p.pos >= old(p.pos) && p.pos <= len(p.twkb)
+
+//@ func (*twkbParser).nextGeometry
+//@   wraparith
+//@   requires FreshParser(p)
+//@   modifies p
+//@   allocbound 48 * (len(p.twkb) - p.pos) + 64
+//@   ensures same(p.twkb, old(p.twkb)) && 0 <= p.pos && p.pos <= len(p.twkb)
+
+//@ func (*twkbParser).parseGeometry
+//@   wraparith
+//@   requires FreshParser(p)
+//@   modifies p
+//@   allocbound 48 * (len(p.twkb) - p.pos) + 64
+//@   ensures same(p.twkb, old(p.twkb)) && 0 <= result1 && result1 == p.pos && p.pos <= len(p.twkb)
+
+//@ func (*twkbParser).annotateError
+//@   ensures (result == nil) <==> (err == nil)
+
+//@ func UnmarshalTWKB
+//@   wraparith
+//@   allocbound 48 * len(twkb) + 64
+//@ func UnmarshalTWKBIDList
+//@   wraparith
+//@   allocbound 48 * len(twkb) + 64
+//@ func UnmarshalTWKBSize
+//@   wraparith
+//@   ensures result2 == nil && result1 ==> 0 <= result0 && result0 <= len(twkb)
+//@ func UnmarshalTWKBEnvelope
+//@   wraparith
+//@ func (*twkbParser).parseBBoxHeader
+//@   wraparith
+//@   requires FreshParser(p)
+//@   modifies p
